@@ -65,8 +65,8 @@ CLAIMS = {
    note=COMMON_NOTE + "The capability slice is tracked by a keyword-membership abstraction of slice literals/append/phi inside the generator (exact or fail closed). Assumed: AuthMechanisms stub.",
    design="3.C12", technique=T + "; keyword-membership abstraction for the capability list"),
  "C13": dict(
-   text="Deductive proof of the sequential kernel: createStatusCollector gives one slot per accepted recipient and a channel for every recipient; fillRemaining fills every recipient's channel to capacity and the recover handlers of both delivery goroutines call it on the collector of THIS transfer (so a backend panic still answers every recipient); reset drops the collector with the transaction; the emission loops of handleDataLMTP and handleBdat write exactly one final reply per accepted recipient (loop invariant replies == old + i) and the i-th reply is built from the value received from status[i] (receive-site obligation), in RCPT order; the non-LMTPSession fallback sets the single Data result for every recipient.",
-   note=COMMON_NOTE + "BOUNDED stand-in (labelled bounded, never counted as proved; goroutines and channel timing are outside sequential contracts): the real handleDataLMTP / handleBdat on a connection object without network against a scripted backend under a 2 s watchdog - recipient lists of 1..4 (thorough: 5) entries over two addresses, every sub-multiset and order of SetStatus calls placed before / after / around the reading of the message, return nil or error, backend panic, DATA and BDAT LAST, per-recipient and plain backend: one reply per recipient in order naming it, the k-th status set for an address on its k-th occurrence, the return value where none was set, no hang. NOT decided: goroutine schedules other than the ones the runtime happened to choose; deadlock freedom in general; channel capacity = number of occurrences is not stated as a contract.",
+   text="Deductive proof of the sequential kernel: createStatusCollector gives one slot per accepted recipient and a channel for every recipient whose capacity is exactly the number of occurrences of that address among the recipients (counting function over the recipient list, loop invariants over the three loops: the k-th status of an address finds room for its k-th occurrence); fillRemaining fills every recipient's channel to capacity and the recover handlers of both delivery goroutines call it on the collector of THIS transfer (so a backend panic still answers every recipient); reset drops the collector with the transaction; the emission loops of handleDataLMTP and handleBdat write exactly one final reply per accepted recipient (loop invariant replies == old + i) and the i-th reply is built from the value received from status[i] (receive-site obligation), in RCPT order; the non-LMTPSession fallback sets the single Data result for every recipient.",
+   note=COMMON_NOTE + "BOUNDED stand-in (labelled bounded, never counted as proved; goroutines and channel timing are outside sequential contracts): the real handleDataLMTP / handleBdat on a connection object without network against a scripted backend under a 2 s watchdog - recipient lists of 1..4 (thorough: 5) entries over two addresses, every sub-multiset and order of SetStatus calls placed before / after / around the reading of the message, return nil or error, backend panic, DATA and BDAT LAST, per-recipient and plain backend: one reply per recipient in order naming it, the k-th status set for an address on its k-th occurrence, the return value where none was set, no hang. NOT decided: goroutine schedules other than the ones the runtime happened to choose; deadlock freedom in general.",
    design="3.C13", technique=T),
  "C14": dict(
    text="Deductive proof of the encoder kernel: encodeXtext / encodeUTF8AddrXtext / encodeUTF8AddrUnitext emit, per input rune, the RFC 3461 / RFC 6533 form required by the statement (xchar/QCHAR sent as is; every other 7-bit octet escaped: '+' and exactly two hex digits, resp. a \\x{...} form), their output is a single ESMTP value token without CR/LF (loop invariants over a ghost strings.Builder content and character-class predicates), the client hands ENVID to the xtext encoder only inside its 7-bit printable domain, renders each option under the right keyword only if negotiated (shared with C15) and renders every requested flag and every requested-and-offered option (a 'contains' predicate on the line handed to cmd); server side: the decoded values flow unchanged into the options object (C11 flow).",
